@@ -37,7 +37,7 @@ class CaseTimeout(BaseException):
     """raised inside a case that runs longer than CASE_LIMIT_S (see Ctx.next_case)"""
 
 
-CASE_LIMIT_S = int(os.environ.get("VERIF_CASE_LIMIT_S", "420"))
+CASE_LIMIT_S = int(os.environ.get("VERIF_CASE_LIMIT_S", "120"))
 
 
 class Ctx:
